@@ -681,6 +681,8 @@ def parse_aseq_program(program: Loop, used_channels: FrozenSet[ChannelID]) -> Pa
     waveforms = OrderedDict()
     for adv_position, sequencer_table_loop in enumerate(program):
         current_sequencer_table = []
+        # scopes of the volatile entries: a table is only shared if updates change all users identically
+        current_volatile_scopes = []
         for position, (waveform, repetition_definition, volatile_repetition) in enumerate(
                 (waveform_loop.waveform.get_subset_for_channels(used_channels),
                  waveform_loop.repetition_definition, waveform_loop.volatile_repetition)
@@ -694,9 +696,10 @@ def parse_aseq_program(program: Loop, used_channels: FrozenSet[ChannelID]) -> Pa
             if volatile_repetition:
                 assert not isinstance(repetition_definition, int)
                 volatile_parameter_positions[(adv_position, position)] = repetition_definition
+                current_volatile_scopes.append(id(repetition_definition._scope))
 
         # make hashable
-        current_sequencer_table = tuple(current_sequencer_table)
+        current_sequencer_table = (tuple(current_sequencer_table), tuple(current_volatile_scopes))
 
         sequence_index = sequencer_tables.setdefault(current_sequencer_table, len(sequencer_tables))
         sequence_no = sequence_index + 1
@@ -707,7 +710,7 @@ def parse_aseq_program(program: Loop, used_channels: FrozenSet[ChannelID]) -> Pa
             volatile_parameter_positions[adv_position] = sequencer_table_loop.repetition_definition
 
     # transform sequencer_tables in lists to make it indexable and mutable
-    sequencer_tables = list(map(list, sequencer_tables))
+    sequencer_tables = [list(sequencer_table) for sequencer_table, _ in sequencer_tables]
 
     return ParsedProgram(
         advanced_sequencer_table=advanced_sequencer_table,
